@@ -2128,10 +2128,10 @@ func (a *Agent) TaskPrepare(Command int, Info any, Message *map[string]string, C
 
 				}
 
-				/* remove the socks server from the array */
-				a.SocksSvr = append(a.SocksSvr[:i], a.SocksSvr[i+1:]...)
-
 			}
+
+			/* every socks server has been closed: empty the array (not while ranging over it) */
+			a.SocksSvr = nil
 
 			a.SocksSvrMtx.Unlock()
 
